@@ -9,6 +9,9 @@ def literal_text(par, kids, x, variant, depth=0, wrap="%di64"):
         w = wrap
         if wrap == "%di64" and (variant + 2 * i) % 4 == 1:
             w = "%di32.into()"           # an expression whose type is only fixed by the arena's payload type
+        elif wrap == "%di64" and (variant + i) % 3 == 2:
+            # an expression that mentions locals of the caller whose names a macro might use for its own variables
+            w = "(%di64 + parent + node + root + temp + child + id + value + index + cursor + last + current)"
         expr = "{ lg(%d); %s }" % (i, w % i)
         if kids[i]:
             items.append("%s => %s" % (expr, literal_text(par, kids, i, variant + i, depth + 1, wrap)))
@@ -28,14 +31,30 @@ def gen_cases(cases):
         kids = {0: c["kids"][0]}
         for i in range(1, k + 1):
             kids[i] = c["kids"][i]
-        for form in ("value", "id0", "id1", "id2"):
+        for form in ("value", "id0", "id1", "id2", "idfree", "valuefree"):
+            if form in ("idfree", "valuefree") and (k < 3 or (len(src) + (form == "idfree")) % 3 != 0):
+                continue
             n += 1
-            pre = {"value": 0, "id0": 0, "id1": 1, "id2": 2}[form]
+            pre = {"value": 0, "id0": 0, "id1": 1, "id2": 2, "idfree": 0, "valuefree": 0}[form]
             body = ["fn case_%d(out: &mut Vec<Value>) {" % n, "    LOG.with(|l| l.borrow_mut().clear());",
+                    "    let (parent, node, root, temp, child, id, value, index, cursor, last, current): (i64, i64, i64, i64, i64, i64, i64, i64, i64, i64, i64) = (0, 0, 0, 0, 0, 0, 0, 0, 0, 0, 0);",
+                    "    let _ = (parent, node, root, temp, child, id, value, index, cursor, last, current);",
                     "    let mut arena: Arena<i64> = Arena::new();"]
+            free_setup = ["    let x1 = arena.new_node(-201i64);", "    let x2 = arena.new_node(-202i64);", "    let x3 = arena.new_node(-203i64);",
+                          "    let _ = x2;", "    x1.remove(&mut arena);", "    x3.remove(&mut arena);"]
             if form == "value":
                 rootexpr = "{ lg(-1); 0i64 }"
                 rootopt = "None"
+            elif form == "valuefree":
+                # the arena has vacant slots left over from earlier removals: the nodes of the literal do not get consecutive slots
+                body += free_setup
+                rootexpr = "{ lg(-1); 0i64 }"
+                rootopt = "None"
+            elif form == "idfree":
+                body.append("    let root_id = arena.new_node(0i64);")
+                body += free_setup
+                rootexpr = "{ lg(-1); root_id }"
+                rootopt = "Some(root_id)"
             else:
                 body.append("    let root_id = arena.new_node(0i64);")
                 for j in range(pre):
@@ -57,8 +76,14 @@ def gen_cases(cases):
             ek["0"] = [-(100 + j) for j in range(pre)] + kids[0]
             for j in range(pre):
                 ek[str(-(100 + j))] = []
+            cnt = k + 1 + pre
+            if form in ("idfree", "valuefree"):
+                ek["-202"] = []
+                # slots: root (idfree: its own; valuefree: recycled or new) + x1, x2, x3; two of them vacant and recycled first
+                new_nodes = k + (1 if form == "valuefree" else 0)
+                cnt = (4 if form == "idfree" else 3) + max(0, new_nodes - 2)
             expect.append({"n": n, "form": form, "k": k, "par": par, "kids": ek, "log": [-2, -1] + list(range(1, k + 1)),
-                           "count": k + 1 + pre, "text": inv})
+                           "count": cnt, "text": inv})
     # the same literals with a payload type that has a destructor (every third shape, two root forms)
     for ci, c in enumerate(cases):
         if ci % 3 != 1:
